@@ -1322,6 +1322,8 @@ class AEval(dtable.Eval):
                 return args[0]
             if last == "default" and not args and (f["path"] in ("Default::default", "std::default::Default::default", "core::default::Default::default") or re.match(r"^[A-Z]::default$", f["path"])):
                 return DEFAULT
+            if f["path"] in ("std::mem::discriminant", "mem::discriminant", "core::mem::discriminant") and len(args) == 1 and args[0][0] == "ctor":
+                return A("discriminant:" + args[0][1])
             if f["path"] in ("std::iter::once", "iter::once", "core::iter::once") and len(args) == 1:
                 return L(args[0])
             if f["path"] in ("std::iter::empty", "iter::empty", "core::iter::empty") and not args:
